@@ -13,15 +13,15 @@ Qed.
 Lemma str_eqb_refl a : str_eqb a a = true.
 Proof. apply str_eqb_eq; reflexivity. Qed.
 
-(* packager: in a document whose fragments are pairwise different every entry is found by its own fragment,
-   wherever it stands in the list *)
+(* packager: in a document whose fragments are pairwise different every entry a key can be built from is found by
+   its own fragment, wherever it stands in the list and whatever the other entries are *)
 Lemma pk_find_own : forall kas v,
-  NoDup (map vm_frag kas) -> In v kas -> pk_find kas (vm_frag v) = Some (vm_key v).
+  NoDup (map vm_frag kas) -> In v kas -> vm_ok v = true -> pk_find kas (vm_frag v) = FKey (vm_key v).
 Proof.
-  induction kas as [|a kas IH]; intros v Hnd Hin; [destruct Hin|].
+  induction kas as [|a kas IH]; intros v Hnd Hin Hok; [destruct Hin|].
   cbn [pk_find]. cbn [map] in Hnd. inversion Hnd as [|? ? Hnotin Hnd']; subst.
   destruct (str_eqb (vm_frag a) (vm_frag v)) eqn:E.
-  - destruct Hin as [->|Hin]; [reflexivity|]. exfalso. apply str_eqb_eq in E. apply Hnotin. rewrite E.
+  - destruct Hin as [->|Hin]; [rewrite Hok; reflexivity|]. exfalso. apply str_eqb_eq in E. apply Hnotin. rewrite E.
     apply in_map. assumption.
   - destruct Hin as [->|Hin]; [rewrite str_eqb_refl in E; discriminate|]. apply IH; assumption.
 Qed.
@@ -35,12 +35,12 @@ Qed.
 
 (* kid resolver (repaired): the same, on full ids *)
 Lemma dr_first_own doc : forall kas v,
-  NoDup (map vm_frag kas) -> In v kas -> dr_first doc kas (vm_full_id doc v) = Some (vm_key v).
+  NoDup (map vm_frag kas) -> In v kas -> vm_ok v = true -> dr_first doc kas (vm_full_id doc v) = FKey (vm_key v).
 Proof.
-  induction kas as [|a kas IH]; intros v Hnd Hin; [destruct Hin|].
-  cbn [dr_first]. cbn [map] in Hnd. inversion Hnd as [|? ? Hnotin Hnd']; subst. rewrite full_id_eqb.
+  induction kas as [|a kas IH]; intros v Hnd Hin Hok; [destruct Hin|].
+  cbn [dr_first]. unfold dr_entry. cbn [map] in Hnd. inversion Hnd as [|? ? Hnotin Hnd']; subst. rewrite full_id_eqb.
   destruct (str_eqb (vm_frag a) (vm_frag v)) eqn:E.
-  - destruct Hin as [->|Hin]; [reflexivity|]. exfalso. apply str_eqb_eq in E. apply Hnotin. rewrite E.
+  - destruct Hin as [->|Hin]; [rewrite Hok; reflexivity|]. exfalso. apply str_eqb_eq in E. apply Hnotin. rewrite E.
     apply in_map. assumption.
   - destruct Hin as [->|Hin]; [rewrite str_eqb_refl in E; discriminate|]. apply IH; assumption.
 Qed.
